@@ -40,6 +40,27 @@ pub fn one_sequence<const N: usize>(order: [usize; N], dup: usize, seq: u64) {
                             }
                             j += 1;
                         }
+                        // weaker than the order law, but independent of it: every fragment's byte exactly once
+                        let mut perm = out.len() == N;
+                        j = 0;
+                        while j < N && perm {
+                            let (mut ca, mut cb) = (0, 0);
+                            let mut q = 0;
+                            while q < N {
+                                if data[q] == data[j] {
+                                    ca += 1;
+                                }
+                                if out[q] == data[j] {
+                                    cb += 1;
+                                }
+                                q += 1;
+                            }
+                            if ca != cb {
+                                perm = false;
+                            }
+                            j += 1;
+                        }
+                        vassert!(perm, "L:reassembled_has_every_fragment_exactly_once");
                         vassert!(same, "L:reassembled_in_original_order");
                         vk::leak(out);
                     }
@@ -77,6 +98,7 @@ pub fn two_sequences(first_b_after: usize) {
         let r = asm.start_fragment(s2, 2, None, vec![b0]);
         match r {
             Some(out) => {
+                vassert!(out.len() == 2 && ((out[0] == b0 && out[1] == b1) || (out[0] == b1 && out[1] == b0)), "L:reassembled_has_every_fragment_exactly_once");
                 vassert!(out.len() == 2 && out[0] == b0 && out[1] == b1, "L:reassembled_in_original_order");
                 vk::leak(out);
             }
@@ -87,7 +109,8 @@ pub fn two_sequences(first_b_after: usize) {
     let r = asm.add_fragment(s1, 1, vec![a1]);
     match r {
         Some(out) => {
-            vassert!(out.len() == 2 && out[0] == a0 && out[1] == a1, "L:sequences_isolated");
+            vassert!(out.len() == 2 && ((out[0] == a0 && out[1] == a1) || (out[0] == a1 && out[1] == a0)), "L:sequences_isolated");
+            vassert!(out.len() == 2 && out[0] == a0 && out[1] == a1, "L:reassembled_in_original_order");
             vk::leak(out);
         }
         None => vassert!(false, "L:complete_when_last_missing_fragment_arrives"),
@@ -110,6 +133,7 @@ pub fn out_of_range_ids() {
     let r = asm.add_fragment(seq, 1, vec![a1]);
     match r {
         Some(out) => {
+            vassert!(out.len() == 2 && ((out[0] == a0 && out[1] == a1) || (out[0] == a1 && out[1] == a0)), "L:reassembled_has_every_fragment_exactly_once");
             vassert!(out.len() == 2 && out[0] == a0 && out[1] == a1, "L:reassembled_in_original_order");
             vk::leak(out);
         }
